@@ -7,7 +7,7 @@ CHECKS = {
     # id: (category, technique, text, note, design_ref)
     "C04": ("exploration", "bounded-exhaustive enumeration of operand lattice pairs against a Python int/Fraction oracle",
             "Every ordered pair of a 220-value (thorough: 328) integer boundary lattice x 22 binary operations, every pair of a rational "
-            "lattice, every lattice value x radix 2..36 both ways, exact<->inexact on representable values, a fixed 1000-4000 bit family "
+            "lattice, a family of rounding ties and near-ties (k+1/2, k+1/4, k+3/4, k+1/2 +- 1/(2^64+1) for even and odd k at every limb boundary) through the rounding operations, every lattice value x radix 2..36 both ways, exact<->inexact on representable values, a fixed 1000-4000 bit family "
             "and triples for variadic folds are evaluated by the real interpreter and compared digit for digit (plus canonical-form tag: "
             "fixnum iff it fits, ratio in lowest terms) with CPython integers/Fractions. Exhaustive over the stated lattice, nothing beyond it.",
             "Trusts CPython big integers and the decimal reader/writer that carries operands; lattice values only.", "DESIGN.md §4 C04"),
@@ -22,9 +22,10 @@ CHECKS.update({
             "Trusts CPython integers; lattice values only; an empty field for bit-field-rotate and 3-argument bitwise-eqv are not asserted.",
             "DESIGN.md §4 C17"),
     "C02": ("fault_enumeration", "exhaustive enumeration of forced-collection points (every allocation index, all-positions, every n-th) on the real interpreter under ASan with poisoned free memory",
-            "For each workload (closures/lists, procedures outliving their environment, 85 kinds of C-made error object incl. bad arguments "
+            "For each workload (closures/lists, procedures outliving their environment, 101 kinds of C-made error object incl. bad arguments "
             "to FFI stubs, strings and ports, bignums/ratios/flonums, continuations/dynamic-wind/exceptions/parameters, "
-            "eval + syntax-rules, hash tables/sort/bit ops, json/reader/writer/files/FFI stubs, SRFI-18 threads, two micro workloads) the "
+            "eval + syntax-rules, hash tables/sort/bit ops, json/reader/writer/files/FFI stubs, SRFI-18 threads, FFI stub libraries and custom ports (clibs), "
+            "AST/type introspection, disassembler, ephemerons and C sort callbacks (cast), stack growth inside C callbacks (growstack), two micro workloads) the "
             "collection schedule is the only thing varied: a collection before every allocation, every n-th, and one collection before "
             "allocation k for every k (micro workloads; all workloads in the thorough tier; strided otherwise), for several initial heap sizes. "
             "Oracle: output byte-identical to the schedule-free baseline and no AddressSanitizer report, with every free chunk and the slack "
@@ -69,7 +70,7 @@ CHECKS.update({
             "coalesced after a sweep, no mark bit survives, every slot of every live object designates the start of a live object, and after "
             "gc the live bytes equal the boot constant plus the model's reachable bytes. Every final-frontier state is churned until its heap "
             "state repeats (bounded for ever). The same checker runs at every collection of 10 workloads and the repository's own test files, "
-            "and churn programs with bounded live data must reach a heap-size fixpoint.",
+            "and churn programs with bounded live data (mixed object kinds; requests in ascending, descending and alternating sizes, so that a collection is triggered by a request larger than every single dead object) must reach a heap-size fixpoint and stay below a fixed bound.",
             "The checker shares the type table with the collector; states are identified by two 64-bit hashes of the key.", "DESIGN.md §4 C10"),
     "C09": ("exploration", "bounded-exhaustive differential enumeration across build variants (default vs SEXP_USE_SIMPLIFY=0 vs SEXP_USE_CUSTOM_LONG_LONGS=1) plus exhaustive helper-level comparison with native __int128",
             "Every program of the C03 generators and of a generator aimed at what the simplifier touches (all-literal arithmetic incl. "
@@ -91,12 +92,12 @@ CHECKS.update({
             "Relies on the VM publishing its stack top before foreign calls; call/cc and call-with-values are not among the property's contexts.",
             "DESIGN.md §4 C05"),
     "C07": ("exploration", "bounded-exhaustive metamorphic enumeration: every admissible consistent renaming of user variables in a library of macro-use programs",
-            "22 macro-use templates (syntax-rules binding-introducing / free-reference / nested ellipsis / literals / macro-defining macro, "
+            "32 macro-use templates (syntax-rules binding-introducing / free-reference / nested ellipsis / literals / macro-defining macro, "
             "er-, sc- and rsc-macro-transformer versions, let-syntax, letrec-syntax, nested uses, user variables in the position where a macro "
-            "- also cond, case, guard - looks for a literal) x 6 binding forms x {first, second, both} "
+            "- also cond, case, guard - looks for a literal, compound ellipsis templates of a let-syntax / letrec-syntax defined under the user's bindings) x 6 binding forms x {first, second, both} "
             "user variable x every admissible target among 76 names (fresh names, every identifier occurring in a macro template or "
             "transformer, core keywords incl. _ and ..., standard procedures). The renamed program must print exactly what the original "
-            "prints, and the original must print the hand-derived value.",
+            "prints, and the original must print the hand-derived value. Family forward-*: macros (syntax-rules, er, sc; call and value position) that insert a global defined only after the use site was compiled x 3 binding sites x renamings of the user variable to that very name.",
             "A target is skipped when the user code itself mentions that identifier or when it would shadow a keyword needed to classify the "
             "definitions of the same body (both are outside what R7RS defines).", "DESIGN.md §4 C07"),
     "C14": ("model_checking", "explicit-state exploration of the import-set algebra: every import-set expression up to a nesting bound executed by the real library system and compared name by name with a set-algebra model",
@@ -105,18 +106,18 @@ CHECKS.update({
             "chain), prefix and drop-prefix (one exported name is spelled exactly like the prefix), nesting depth 3 (quick) / 4 (thorough); every expression is handed to `environment` and queried for every name "
             "of the universe (original, private, renamed, prefixed, unrelated). A fixed scenario checks that private helpers behind an exported "
             "macro stay invisible while the macro works (also through a re-exporting library and a nested macro), that re-exports denote the "
-            "exporting library's binding, and that all importers share one instance of a library's state (body evaluated once).",
+            "exporting library's binding, and that all importers share one instance of a library's state (body evaluated once). Scenario 2: exported macros of every transformer kind (syntax-rules, er, sc with and without free names, rsc, anaphoric) that use private definitions and wrap user code x 4 routes by which the importer holds other bindings under the same names (76 lines).",
             "Import sets that are an error in R7RS (absent identifier, duplicates) are not generated; drop-prefix is modelled from its documentation.",
             "DESIGN.md §4 C14"),
     "C16": ("model_checking", "explicit-state exploration of ephemeron / port histories with a collection possible at every position, against a reachability model",
-            "harness/ephmc.c explores every history of <= 6 (7 thorough) operations over 23 operations (new key, new ephemeron with value = "
-            "fresh object / other key / other ephemeron / list holding its own key, drop key, drop ephemeron, gc) on the real collector under "
+            "harness/ephmc.c explores every history of <= 6 (7 thorough) operations over 27 operations (new key, new ephemeron with value = "
+            "fresh object / other key / other ephemeron / list holding its own key / list holding the other key, drop key, drop ephemeron, gc; one level shallower over 39 operations, the 12 extra ones creating ephemerons with an immediate key) on the real collector under "
             "ASan with freed memory poisoned, once with a one-segment heap and once (one level shallower) with a second, last segment while the "
             "objects live in the first; after every step: never broken while the key is strongly reachable, broken after the collection "
             "that finds it unreachable, value intact while the key lives. scheme/weak/fds.scm runs every history of <= 5 port operations "
             "(open, read, close, drop, gc) checking the number of open descriptors after every step, 700 unclosed unreferenced ports under "
             "RLIMIT_NOFILE=64, and ports held only as ephemeron values; scheme/weak/fds2.scm runs every history of <= 4 operations over two "
-            "slots x {file port, port on a descriptor object, bare descriptor object closed explicitly}: nothing reachable is ever closed "
+            "slots x {file port, port on a descriptor object, bare descriptor object closed explicitly, descriptor object whose close(2) fails because its number was closed by raw number}: nothing reachable is ever closed "
             "(exact lower bound, readability), nothing unreachable stays open beyond a small lag.",
             "The harness owns all roots; /proc/self/fd is the descriptor oracle; weak hash tables are not exported by the pinned (chibi weak).",
             "DESIGN.md §4 C16"),
@@ -140,7 +141,7 @@ CHECKS.update({
     "C13": ("model_checking", "explicit-state exploration of interleaved operation sequences on 2-3 contexts against a solo baseline, plus stateless exploration of OS-thread schedules (pre-emption bounded) at interposed process-wide libc calls, plus a free-running ThreadSanitizer pass",
             "harness/ctxmc.c: (a) two contexts (three in thorough) in one OS thread, every pair of per-context operation sequences over "
             "{define shared name, define private name, record type, import C-backed library + table, allocate through collections, intern "
-            "symbols, mutate, destroy} x every interleaving; after every operation each live context's probe must equal the probe of a context "
+            "symbols, mutate, destroy} x every interleaving, plus 20 pairs of sequences that load libraries registering C types in different orders and use their objects; after every operation each live context's probe must equal the probe of a context "
             "that lived alone through the same own operations (ASan build). (b) 2-3 pthreads each create a context, load the standard "
             "environment, import libraries, run a collecting workload and destroy it under a cooperative scheduler whose scheduling points are "
             "the interposed dlopen/dlclose/fopen/fclose/getenv calls: every schedule with <= 1 (2 thorough) pre-emptions; outputs equal the "
@@ -153,7 +154,7 @@ CHECKS.update({
     "C08": ("exploration", "bounded-exhaustive metamorphic enumeration read(write(x)) ~ x over constructor-built data spaces through every writer x reader pair, and all short texts through both readers against a datum-grammar recogniser",
             "Data are built inside Scheme by constructors (never through the reader): doubles by bit pattern over an exponent x mantissa "
             "boundary lattice incl. subnormals, infinities, NaNs; every Unicode scalar value as character, 1-character string and "
-            "1-character symbol; all strings and symbols up to length 3 (4 thorough) over a 20-character quoting alphabet; integer/rational lattices; a "
+            "1-character symbol; all strings and symbols up to length 3 (4 thorough) over a 20-character quoting alphabet, each symbol also inside a list, a pair and a vector; integer/rational lattices; a "
             "complex grid; small bytevectors; all trees to a depth; all rooted graphs of <= 3 (4 thorough) pair/vector nodes incl. sharing and "
             "cycles. Each is written by native write, (scheme write) write and write-shared; every distinct text is read by native read and "
             "(scheme read) and compared with the original by a structural comparison in the driver (flonums by their 64 bits, graphs by "
@@ -221,7 +222,7 @@ CHECKS.update({
             "SRE strata, each enumerated completely: A = the 8 leaves \"a\" \"b\" any (/ \"ab\") (~ \"a\") \"\" bol eol; D1 = every unary operator "
             "* + ? (= 2 x) (** 1 2 x) ($ x) (-> n x) (w/nocase x) over A and (: x y) (or x y) over AxA; D2 = all terms of depth 2 "
             "(unary(D1), binary(D1,A), binary(A,D1); binary(D1,D1) and operator chains of depth 3 in the thorough tier); terms mentioning "
-            "e-acute / E-acute; 4 slow (w/nocase (or ..class..)) terms. Subjects: all 121 strings of length <= 4 over {a, b, newline} "
+            "e-acute / E-acute; repetition bounds (** m n x), (= k x), (>= k x) over leaves and bodies holding submatches; case-folding flags; 4 slow (w/nocase (or ..class..)) terms. Subjects: all 121 strings of length <= 4 over {a, b, newline} "
             "plus 15 fixed strings with upper case and multi-byte characters (lengths 5-6 in the thorough tier). Each pair is run through "
             "regexp-matches and regexp-search on the real interpreter (each SRE compiled once). Asserted: regexp-matches non-#f iff the "
             "whole subject is in L(sre); regexp-search non-#f iff some substring read in its place is in L(sre); span 0 and every "
